@@ -63,6 +63,17 @@ impl AsyncCoreExt {
         }
     }
 
+    /// Ends all async activity of the current incarnation.
+    ///
+    /// Tasks that are still running die with the runtime, so their handles
+    /// are forgotten: they must not be joined at the end of the simulation.
+    /// Finished tasks keep their result (or panic) for the join.
+    pub(crate) fn shutdown(&mut self) {
+        self.must_join.retain(JoinHandle::is_finished);
+        self.try_join.retain(JoinHandle::is_finished);
+        self.rt.shutdown();
+    }
+
     pub(crate) fn reset(&mut self) {
         self.rt = Rt::Runtime((
             Arc::new(
